@@ -610,12 +610,20 @@ func (ce *corrEngine) run(sc CScenario, slot int) {
 	}
 	model := make([]state, len(invs)+1)
 	model[0] = state{nil, gorums.LevelNotSet, false}
+	doneBelow := false // the quorum function reported done with a level below an earlier one
 	for i, inv := range invs {
 		st := model[i]
 		switch {
 		case st.done:
 		case inv.Quorum:
-			st = state{retOf(inv), inv.Level, true}
+			// "published levels never decrease": a quorum function that reports done together with a level below one it reported
+			// before ends the call with its value, at the highest level published
+			lv := inv.Level
+			if st.level > lv {
+				lv = st.level
+				doneBelow = true
+			}
+			st = state{retOf(inv), lv, true}
 		case inv.Level > st.level:
 			st = state{retOf(inv), inv.Level, false}
 		}
@@ -689,6 +697,12 @@ func (ce *corrEngine) run(sc CScenario, slot int) {
 	switch {
 	case doneIdx >= 0:
 		outcome = "done"
+		if doneBelow {
+			ce.g.e.R.Count("calls_done_with_a_level_below_an_earlier_one", 1)
+			if fin.err == nil && fin.Level < last.level {
+				ce.viol("level-decreased", fmt.Sprintf("published level went from %d to %d when the quorum function reported done", last.level, fin.Level), det(""))
+			}
+		}
 		if fin.err != nil || fin.Level != last.level || fin.val != last.val {
 			ce.viol("final-done-value", fmt.Sprintf("after done: level=%d (want %d) err=%v value-is-qf-value=%v", fin.Level, last.level, fin.err, fin.val == last.val), det(""))
 		}
@@ -755,7 +769,7 @@ func RunCorr(e *Env) {
 	e.R.Rule = "seeded gated correctable scenarios: variant (8, incl. streams/per-node/custom type) x n x node scripts x interleaved release order of (repeated) replies and failures x level function " +
 		"(monotone, plateaus, jumps, dips, constant) x done position x ctx-end position x {answers let through one at a time, all at once with a quorum function that takes 0.2 ms so that responses queue up}; snapshots of raw Get, typed Get, Done and Watch(-1..max+1) are taken from inside the next QF invocation (logical time) and after completion; two further goroutines call Watch in bursts of 3000 started just before each reply, error or context end is let through: a channel obtained this way is closed whenever Get shows its level, and after completion; " +
 		"directed family: calls whose Done() is asked for the first time only after completion (completion by done / exhaustion / context, known from a Watch channel of an unreachable level); distinct = full scenario; non-trivial = n>=2 or >=2 events"
-	e.R.Assume("a quorum function that reports done reports a level >= every earlier level (scenarios where it does not are still run; only the final-level clause uses the reported level)")
+	e.R.Assume("a call that completes by done keeps the highest level published (levels never decrease) together with the value reported with done")
 	e.R.Assume("value on Incomplete / context end is not pinned down by the property; only level, error kind, stability and release of Done/Watch are checked then")
 	g := &gatedEngine{e: e, dir: NewDirector(), clusters: map[int]*h.Cluster{}, refs: map[*h.Cluster]int{}, retired: map[*h.Cluster]bool{}, hangSigs: map[string]bool{}}
 	defer g.closeAll()
